@@ -19,6 +19,8 @@ class _Leave(Exception):
 
 def _tag_handler(tag):
     def handler(request, _tag=tag):
+        if getattr(request, "verif_raise", False):
+            raise KeyError(_tag)       # user code in a handler may raise (here: a miss in a dict-backed store)
         return _tag
 
     handler.__name__ = "handler_" + tag.replace(":", "_")
@@ -84,6 +86,20 @@ class _Worker:
                 out[ty] = "TypeError"
             except BaseException as e:
                 out[ty] = "EXC:" + type(e).__name__
+        # the same requests, on which the serving handler raises KeyError(<its tag>)
+        outx = {}
+        for ty in self.w.types:
+            req = self.w.cls[ty]()
+            req.verif_raise = True
+            try:
+                outx[ty] = "RETURNED:%r" % (req.run(),)
+            except TypeError:
+                outx[ty] = "TypeError"
+            except KeyError as e:
+                outx[ty] = "KeyError<%s>" % (e.args[0] if e.args else "")
+            except BaseException as e:
+                outx[ty] = "EXC:" + type(e).__name__
+        out["__x__"] = outx
         return out
 
     def _new_runtime(self, a, how):
@@ -199,8 +215,12 @@ def replay(rt, labels, types, init_defaults, threads, final_probe=True):
             if a["a"] == "Probe":
                 exp = a["srv"][a["t"]]
                 cur_obj = val.pop("__current__", None)
+                valx = val.pop("__x__", None)
                 if val != exp:
                     return {"step": i, "action": a, "got": val, "expected": exp}
+                if valx is not None and "srvx" in a and valx != a["srvx"][a["t"]]:
+                    return {"step": i, "action": a, "got": valx, "expected": a["srvx"][a["t"]],
+                            "note": "requests on which the serving handler raises KeyError"}
                 m = _identity(w, implicit, a["t"], cur_obj, last_cur)
                 if m:
                     return {"step": i, "action": a, "got": m, "expected": "the runtime object the specification names"}
@@ -208,6 +228,8 @@ def replay(rt, labels, types, init_defaults, threads, final_probe=True):
             for t in (sorted(threads) if last_srv is not None else ()):
                 status, val = w.probe_in(t)
                 cur_obj = val.pop("__current__", None) if isinstance(val, dict) else None
+                if isinstance(val, dict):
+                    val.pop("__x__", None)
                 m = _identity(w, implicit, t, cur_obj, last_cur) if status == "ok" and val == last_srv[t] else None
                 if m:
                     return {"step": len(labels), "action": {"a": "FinalProbe", "t": t}, "got": m,
